@@ -35,6 +35,8 @@ NSqrt(a) == LET s == NSqrtL(a) IN NFun(s, NLeaf(NDiv(N1, NMul(NFromInt(2), s))),
 NPow(a, b) == LET x == NLeaf(a) bl == NLeaf(b)
               IN  NFun(NPowL(x, bl), NLeaf(NMul(bl, NPowL(x, NSub(bl, N1)))), a)
 NSq(a)   == NMul(a, a)
+NErf(a)  == NFun(NErfL(a), IF NLt(NAbsL(a), NFromInt(30)) THEN NLeaf(NMul(NDiv(NFromInt(2), NSqrtL(NPi)), NExpL(NNeg(NMul(NLeaf(a), NLeaf(a))))))
+                                                       ELSE N0, a)
 
 JV(a) == a[1]                       \* value
 JG(a, i) == a[2][i]                 \* d/dx_i
